@@ -194,7 +194,7 @@ func execQualified(ops []op, res *engine.Result) {
 	}
 	d := in.dump()
 	key := d.key()
-	g, aliased := d.abstract(false)
+	g, aliased, _ := d.abstract(false)
 	slots := cfg.slots()
 	std := in.probeAll(slots)
 	bad := map[string]bool{} // qualified slots the standard probes already disagree on
